@@ -413,6 +413,9 @@ func (f *g2lFn) addrOf(x *ast.UnaryExpr) string {
 	if s, ok := f.addrOfEnv(x); ok { // go2lean_env.go: &T{…}
 		return s
 	}
+	if s, ok := f.addrOfEff(x); ok { // go2lean_errfn.go: &T{…}
+		return s
+	}
 	id, ok := ast.Unparen(x.X).(*ast.Ident)
 	if !ok {
 		f.fail("`%s`: the address of something other than a local variable (aliasing is outside the subset)", f.src(x))
